@@ -20,7 +20,7 @@ func init() {
 		Explain: "Decides: retryOnError calls the operation before any return, whatever Admin.Retry.Max is (C19.attempt); the retried operation carries no state from one attempt to the next — every variable it both writes and reads is its own or re-initialised first — so a later clean acknowledgement is not overruled by an earlier attempt's error (C19.attempt-local); each controller-bound operation sends its request to the broker returned by Controller() inside the retried closure, refreshes the controller on NOT_CONTROLLER and returns an error the retry predicate recognises (C19.controller); success (nil) is returned only when the item is present and its error code is ErrNoError (C19.verdict); leader/coordinator-bound operations take their broker from Leader()/Coordinator(), per item when they span several (C19.routing); " +
 			"every constant request version stored anywhere in the library is guarded by a configured-version test that implies the version the request type itself requires, so Broker.send cannot refuse it with ErrUnsupportedVersion (C19.version); the fan-out operations pair every WaitGroup.Add with a Done (C12.pairing, shared). " +
 			"NOT covered: number of controller moves versus Retry.Max at run time, the brokers' verdicts themselves.",
-		Rules: []func(*Ctx){c19Attempt, c19AttemptLocal, c19Controller, c19Verdict, c19Routing, c19Version, c12Pairing},
+		Rules: []func(*Ctx){c19Attempt, c19AttemptLocal, c19PerRequestFresh, c19Controller, c19Verdict, c19Routing, c19Version, c12Pairing},
 	})
 }
 
@@ -71,6 +71,123 @@ func c19AttemptLocal(c *Ctx) {
 		}
 		c.Check(bad == "", rule, hosts[i], "no-state-across-attempts", at, "the retried operation reads no captured variable it also writes (each attempt decides on its own response only)",
 			"the retried operation writes and reads the captured variable `"+bad+"`, which lives across attempts: what an earlier attempt recorded (e.g. a NOT_CONTROLLER error) overrules the later attempt's acknowledgement, or the other way round", nil)
+	}
+}
+
+// c19PerRequestFresh: an operation that sends one request per broker (or per item) in a loop builds each
+// request from containers created in that iteration.  A map or slice created before the loop, filled inside
+// it and placed into the request carries the previous brokers' items along: the next broker is asked about
+// partitions it does not lead.
+func c19PerRequestFresh(c *Ctx) {
+	p := c.P
+	rule := "C19.per-request-fresh"
+	c.Doc(rule, "admin.go, every loop that contains a broker request call: no map or slice that is created outside the loop and updated inside it is reachable from the request argument (through struct fields, map values and local variables)")
+	c.Floor(rule, 2)
+	for _, fn := range p.Fns {
+		if fn.Pkg != p.Sarama || !p.inFile(fn, "admin.go") {
+			continue
+		}
+		fi := Info(fn)
+		for _, rq := range p.brokerRequestCalls(fn) {
+			l := fi.InnermostLoop(itemBlock(rq))
+			if l == nil {
+				continue
+			}
+			// outermost loop containing the request
+			for _, l2 := range fi.Loops {
+				if l2.Blocks[itemBlock(rq)] && len(l2.Blocks) > len(l.Blocks) {
+					l = l2
+				}
+			}
+			args := callArgs(rq)
+			if len(args) < 2 {
+				continue
+			}
+			// containers reachable from the request
+			seen := map[ssa.Value]bool{}
+			var containers []ssa.Value
+			var visit func(v ssa.Value, d int)
+			visit = func(v ssa.Value, d int) {
+				v = strip(v)
+				if v == nil || seen[v] || d > 8 {
+					return
+				}
+				seen[v] = true
+				switch x := v.(type) {
+				case *ssa.MakeMap, *ssa.MakeSlice:
+					containers = append(containers, v)
+				case *ssa.UnOp:
+					if x.Op == token.MUL {
+						visit(x.X, d+1)
+					}
+					return
+				case *ssa.Phi:
+					for _, e := range x.Edges {
+						visit(e, d+1)
+					}
+					return
+				case *ssa.Call:
+					if b, ok := x.Call.Value.(*ssa.Builtin); ok && b.Name() == "append" {
+						for _, a := range x.Call.Args {
+							visit(a, d+1)
+						}
+					}
+					return
+				case *ssa.Alloc:
+				default:
+					return
+				}
+				// what is stored into it: fields of a struct, the cell of a local, values of a map, elements
+				if refs := v.Referrers(); refs != nil {
+					for _, r := range *refs {
+						switch y := r.(type) {
+						case *ssa.Store:
+							if y.Addr == v {
+								visit(y.Val, d+1)
+							}
+						case *ssa.FieldAddr:
+							for _, r2 := range *y.Referrers() {
+								if st, ok := r2.(*ssa.Store); ok && st.Addr == ssa.Value(y) {
+									visit(st.Val, d+1)
+								}
+							}
+						case *ssa.IndexAddr:
+							for _, r2 := range *y.Referrers() {
+								if st, ok := r2.(*ssa.Store); ok && st.Addr == ssa.Value(y) {
+									visit(st.Val, d+1)
+								}
+							}
+						case *ssa.MapUpdate:
+							if y.Map == v {
+								visit(y.Value, d+1)
+							}
+						}
+					}
+				}
+			}
+			visit(args[1], 0)
+			bad := ""
+			var at ssa.Instruction
+			for _, m := range containers {
+				in := m.(ssa.Instruction)
+				if l.Blocks[in.Block()] {
+					continue // created in the iteration
+				}
+				// updated inside the loop?
+				for _, r := range *m.Referrers() {
+					if mu, ok := r.(*ssa.MapUpdate); ok && mu.Map == m && l.Blocks[mu.Block()] {
+						bad, at = describe(m), mu
+					}
+					if cl, ok := r.(*ssa.Call); ok && l.Blocks[cl.Block()] {
+						if b, ok := cl.Call.Value.(*ssa.Builtin); ok && b.Name() == "append" {
+							bad, at = describe(m), cl
+						}
+					}
+				}
+			}
+			c.Check(bad == "", rule, fn, "request-built-per-iteration", at, "every container placed into the per-broker request is created in the same iteration",
+				"the request sent to each broker is built from a container ("+bad+") that is created before the loop and filled inside it: a broker visited later also receives the items of the brokers before it and answers for partitions it does not lead", nil)
+		}
 	}
 }
 
